@@ -80,6 +80,9 @@ IdpCases == { Case("crl-idp", [Base EXCEPT !.idp = i, !.revoked = r], <<>>, "ed2
                 i \in {NoIdp} \cup {Idp(u, sc) : u \in {<<>>, <<"$u1">>, <<"$u1", "$u2">>, <<"$u1", "$u2", "$u3">>}, sc \in {"none", "user", "ca"}},
                 r \in {<<>>, <<E0>>} }
 
+(* the same with an issuing certificate that has CRL distribution points of its own (they are the certificate's, not the list's) *)
+IdpIssuerDpCases == { kk @@ [issuerCrlDp |-> TRUE] : kk \in { k2 \in IdpCases : k2.params.idp.k = "some" } }
+
 KidMethods == {Kid("sha256"), Kid("sha384"), Kid("sha512"), KidPre(<<1, 2, 3, 4>>), KidPre(<<>>)}
 Algs == {"ed25519", "ecdsa-p256-sha256", "ecdsa-p384-sha384", "rsa-sha256", "rsa-sha384", "rsa-sha512"}
 KidCases == { Case("crl-kid", [Base EXCEPT !.kid = k], <<>>, alg, ik) : k \in KidMethods, ik \in KidMethods, alg \in IF Quick THEN {"ed25519", "ecdsa-p256-sha256"} ELSE Algs }
@@ -108,7 +111,7 @@ SetToSortedSeq(S) == IF S = {} THEN <<>> ELSE LET m == SetMax(S) IN SetToSortedS
 (* every issuer key-usage set: the cRLSign guard must fire for exactly those that are non-empty and lack bit 6 *)
 IssuerKuCases == { Case("crl-issuer-ku", Base, SetToSortedSeq(S), "ed25519", Kid("sha256")) : S \in SUBSET (0..8) }
 
-Cases == IssuerKuCases \cup GuardCases \cup EntryCases \cup RepeatedSerialCases \cup SerialCases \cup IdpCases \cup KidCases \cup AlgCases \cup TimeCasesOk
+Cases == IssuerKuCases \cup GuardCases \cup EntryCases \cup RepeatedSerialCases \cup SerialCases \cup IdpCases \cup IdpIssuerDpCases \cup KidCases \cup AlgCases \cup TimeCasesOk
 
 Args(k) == [params |-> k.params, issuer |-> [dn |-> k.issuerDn, ku |-> k.issuerKu, subjectRaw |-> ""],
             signerKey |-> [h |-> "kI", alg |-> k.alg], signerFails |-> FALSE]
